@@ -36,7 +36,7 @@ theorem ev_number (k : Nat) (n : List Char) (hn : Dig n) (c : Char) (r : List Ch
   unfold ssw_number
   apply run_word
   · simp only [pre, if_true]
-    rw [List.cons_append, skipIgn_blanks_cons k d _ w1 w2]
+    rw [List.cons_append, skipIgn_blanks_consE k d _ w1 w2]
   · exact w5
   · intro x hx; exact (nums_facts x (hds x hx)).2.2.2.2
   · exact hc
@@ -86,7 +86,7 @@ theorem ev_lit_failk (k : Nat) (a c : Char) (s r : List Char) (hws : isWs c = fa
     Ev env sk (.lit (a :: s)) (P (bl k ++ c :: r)) none 0 := by
   apply ev_lit_fail a c s r _ hne
   simp only [pre, if_true]
-  exact skipIgn_blanks_cons k c r hws hh
+  exact skipIgn_blanks_consE k c r hws hh
 
 theorem ev_lit_fail0 (a c : Char) (s r : List Char) (hws : isWs c = false) (hh : c ≠ '#') (hne : a ≠ c) :
     Ev env sk (.lit (a :: s)) (P (c :: r)) none 0 := by
@@ -535,7 +535,7 @@ theorem pre_blanks_dig (k : Nat) (v : List Char) (hv : Dig v) (rest : List Char)
   obtain ⟨d, ds, rfl, hd, _⟩ := hv.cons
   obtain ⟨w1, w2, _⟩ := nums_facts d hd
   simp only [pre, if_true]
-  rw [List.cons_append, skipIgn_blanks_cons k d _ w1 w2]
+  rw [List.cons_append, skipIgn_blanks_consE k d _ w1 w2]
 
 theorem pre_nsk (p : Pos) : pre nsk p = p := by simp [pre]
 
@@ -571,7 +571,7 @@ theorem ev_gorf (k : Nat) (v : List Char) (hv : Dig v) (c : Char) (r : List Char
 /-- `gorf` fails on a sign -/
 theorem ev_gorf_fail (k : Nat) (r : List Char) : Ev env sk ssw_gorf (P (bl k ++ '-' :: r)) none 8 := by
   have hpre : pre sk (P (bl k ++ '-' :: r)) = P ('-' :: r) := by
-    simp only [pre, if_true]; rw [skipIgn_blanks_cons k '-' r (by decide) (by decide)]
+    simp only [pre, if_true]; rw [skipIgn_blanks_consE k '-' r (by decide) (by decide)]
   have hnum : Ev env nsk ssw_number (P ('-' :: r)) none 0 := by
     unfold ssw_number
     exact ev_word_fail _ _ '-' r (by rw [pre_nsk]) (by decide)
